@@ -70,6 +70,7 @@ class Explorer:
         self._model = None
         self.ref = {}             # z3 ast id -> (lo, hi) refinement on this path
         self.fresh_counter = 0
+        self.rounding = False     # reals: exact (False) or (1+d) rounding model (True)
 
     # ------------------------------------------------------------- solver
     def _sat(self, *extra):
@@ -118,7 +119,7 @@ class Explorer:
 
     def model_dict(self, model=None):
         m = model if model is not None else self.get_model()
-        return {k: self.eval_input(m, k) for k in self.input_order}
+        return {k: self.eval_input(m, k) for k in self.input_order if '!' not in k}
 
     # ------------------------------------------------------------- trail
     def replaying(self):
@@ -404,9 +405,13 @@ class SymInt:
         return SymInt.lift(o, self._w())
 
     def _bin(self, o, zf, lof):
-        o = self._lift(o)
-        if o is None:
+        o2 = self._lift(o)
+        if o2 is None:
+            if isinstance(o, float) or type(o).__name__ == 'SymReal':
+                from . import reals
+                return zf(reals.to_real(self), o)      # real arithmetic takes over
             return NotImplemented
+        o = o2
         lo, hi = lof(self.rng(), o.rng())
         return SymInt(zf(self.e, o.e), lo, hi, self.w)
 
@@ -419,10 +424,13 @@ class SymInt:
         return self._bin(o, lambda a, b: a - b, lambda a, b: (a[0] - b[1], a[1] - b[0]))
 
     def __rsub__(self, o):
-        o = self._lift(o)
-        if o is None:
+        o2 = self._lift(o)
+        if o2 is None:
+            if isinstance(o, float):
+                from . import reals
+                return o - reals.to_real(self)
             return NotImplemented
-        return o.__sub__(self)
+        return o2.__sub__(self)
 
     def __neg__(self):
         lo, hi = self.rng()
